@@ -174,12 +174,32 @@ def build(p):
     return s, vs
 
 
-def exact_facts_bruteforce(s, vs):
+def reference_formula(p, vs, env):
+    """the documented meaning of the *description* of the program (independent of the trees the library built)"""
+    zs = [env.z(v) for v in vs]
+    if p["kind"] == "set":
+        alts = [z3.And([(z == (z3.BoolVal(val) if isinstance(v, BoolVar) else z3.IntVal(val))) for v, z, val in zip(vs, zs, tup)]) for tup in p["set"]]
+        body = z3.Or(alts) if alts else z3.BoolVal(False)
+    else:
+        zb = [z for v, z in zip(vs, zs) if isinstance(v, BoolVar)]
+        zi = [z for v, z in zip(vs, zs) if isinstance(v, IntVar)]
+        body = z3.And([trees.ref_desc(t, zb, zi) for t in p["steps"] if trees.buildable(t)] or [z3.BoolVal(True)])
+    return z3.And(env.domain(vs), body)
+
+
+def holds(p, vs, combo):
+    if p["kind"] == "set":
+        return tuple(combo) in set(tuple(t) for t in p["set"])
+    vb = [x for v, x in zip(vs, combo) if isinstance(v, BoolVar)]
+    vi = [x for v, x in zip(vs, combo) if isinstance(v, IntVar)]
+    return all(trees.py_desc(t, vb, vi) for t in p["steps"] if trees.buildable(t))
+
+
+def exact_facts_bruteforce(p, vs):
     ranges = [(False, True) if isinstance(v, BoolVar) else range(v.lo, v.hi + 1) for v in vs]
     sols = []
     for combo in itertools.product(*ranges):
-        a = {id(v): x for v, x in zip(vs, combo)}
-        if all(ref.pyeval(c, a) for c in s.constraints):
+        if holds(p, vs, combo):
             sols.append(combo)
     if not sols:
         return False, None
@@ -207,7 +227,7 @@ def check_one(p, route):
             return {"kind": "exception", "detail": "%s: %s" % (type(e).__name__, str(e)[:200])}, 0, 0.0
     LAST_LOG[:] = log
     env = ref.Env(prefix="")
-    R = z3.And(env.domain(vs), *[ref.rb(c, env) for c in s.constraints])
+    R = reference_formula(p, vs, env)
     q = z3.Solver()
     q.set("timeout", 20000)
     q.add(R)
@@ -291,7 +311,7 @@ def replay(payload, verbose=False):
     p = from_json(payload["program"])
     route = payload["route"]
     s, vs = build(p)
-    sat, facts = exact_facts_bruteforce(s, vs)
+    sat, facts = exact_facts_bruteforce(p, vs)
     native = route.startswith("fake:") and route != "fake:SugarBackend"
     if native or not payload.get("script"):
         be = backend_for(route)
@@ -334,6 +354,10 @@ def programs(tier, rng):
         S = [sq[i] for i in range(9) if mask >> i & 1]
         for keys in ([[0, 1], [0], [1], []] if tier == "thorough" else [[0, 1], [mask % 2]]):
             out.append({"kind": "set", "vars": [("i", 0, 2), ("i", 0, 2)], "set": S, "keys": keys})
+    # values outside CPython's small-int cache (identity vs equality slips), shifted copies of {0,1,2}^2
+    for mask in range(1, 512, 7 if tier == "quick" else 2):
+        S = [(1000 + sq[i][0], -300 - sq[i][1]) for i in range(9) if mask >> i & 1]
+        out.append({"kind": "set", "vars": [("i", 1000, 1002), ("i", -302, -300)], "set": S, "keys": [[0, 1], [0], [1]][mask % 3]})
     mix = list(itertools.product((False, True), (-1, 0, 1)))
     for mask in range(0, 64):
         S = [mix[i] for i in range(6) if mask >> i & 1]
